@@ -480,6 +480,9 @@ class Program:
         d = json.load(open(path))
         self.raw = d
         self.structs = d['structs']; self.distructs = d['distructs']; self.enums = d['enums']; self.globals = d['globals']
+        self.distructs_alt = {}
+        for a_ in d.get('distructs_alt', []):
+            self.distructs_alt.setdefault(a_['name'], []).append(a_['def'])
         self.functions = {}
         for name, fd in d['functions'].items():
             self.functions[name] = Function(name, fd, self)
@@ -506,10 +509,29 @@ class Program:
     def defined(self):
         return [f for f in self.functions.values() if not f.decl]
 
-    def member_name(self, sname, off, fidx=None):
+    def distruct_for(self, sname):
+        """debug-info description of the LLVM struct `sname`: when several units define different structs of the same name
+        (llvm-link keeps them apart as name, name.123, ...), the description whose size and member offsets fit the layout"""
         base = re.sub(r'^(struct|union)\.', '', sname or '')
         base = re.sub(r'\.\d+$', '', base)
         ds = self.distructs.get(base)
+        alts = self.distructs_alt.get(base)
+        if not alts or ds is None:
+            return ds
+        lay = self.structs.get(sname)
+        if not lay:
+            return ds
+        offs = {fl['off'] for fl in lay['fields']}
+        def fits(d):
+            return d['size'] == lay['size'] and {m['off'] for m in d['members'] if m.get('bitoff', 0) % 8 == 0} <= offs | {m['off'] for m in d['members']} and \
+                {m['off'] for m in d['members']} >= offs - {o for o in offs if False} and len({m['off'] for m in d['members']} & offs) == len(offs)
+        cands = [d for d in [ds] + alts if fits(d)]
+        if len(cands) >= 1:
+            return cands[0]
+        return ds
+
+    def member_name(self, sname, off, fidx=None):
+        ds = self.distruct_for(sname)
         if ds:
             cands = [m for m in ds['members'] if m['off'] == off]
             if len(cands) == 1:
